@@ -1,10 +1,23 @@
 (* C13 -- Data-set transformations keep rows and values intact.
-   Property theorems only; each is closed by [exact] of a lemma proved in Proofs/DBP.v. *)
-From Coq Require Import ZArith List Permutation.
+   Property theorems only; each is closed by [exact] of a lemma proved in Proofs/DBP.v.
+   The model (Model/DB.v) describes src/biogeme/database.py and tools/database.py as repaired by
+   the fix: commits 589b5da, 5b62ce6, 4b225bd, 5cb635b; it is tied to the code by the
+   correspondence stream `ops` (lib/props/C13.py).  Formulas are ARBITRARY functions of the row;
+   the outcomes of the random number generator are arbitrary inputs. *)
+From Coq Require Import ZArith List Bool Permutation.
 From BV Require Import Model.DB Proofs.DBP.
 Import ListNotations.
 Open Scope Z_scope.
 
+(* an example table: labels unsorted, with a gap and a duplicate; columns 1, 2 *)
+Definition ex_t : table :=
+  mkT [1; 6] [(7, [(1, 0); (5, 0)]); (3, [(1, 1); (5, 0)]); (7, [(3, 0); (1, 1)]); (10, [(1, 2); (1, 1)]); (4, [(5, 0); (9, 0)])].
+Definition ex_f : formula := feval (FBin BEq (FCol 1) (FConst (3, 0))).     (* a == 3 *)
+
+(* ---------------------------------------------------------------- T13a remove *)
+(* remove deletes exactly the rows whose condition is non-zero (whatever the labels: unsorted,
+   gaps, duplicates), keeps order, labels and cells of the others, reports the number of deleted
+   rows, leaves no temporary column *)
 Theorem T13a_remove_exact : forall f t t' n,
   well_formed t -> remove_tab f t = Some (t', n) ->
   cols t' = cols t /\
@@ -13,3 +26,312 @@ Theorem T13a_remove_exact : forall f t t' n,
   n + nrows t' = nrows t.
 Proof. exact remove_exact. Qed.
 Print Assumptions T13a_remove_exact.
+
+Example T13a_example :
+  well_formed ex_t /\
+  remove_tab ex_f ex_t =
+    Some (mkT [1; 6] [(7, [(1, 0); (5, 0)]); (3, [(1, 1); (5, 0)]); (10, [(1, 2); (1, 1)]); (4, [(5, 0); (9, 0)])], 1).
+Proof.
+  split; [|vm_compute; reflexivity]. split; [repeat constructor; simpl; intuition discriminate|].
+  intros r Hr. simpl in Hr. repeat destruct Hr as [<-|Hr]; try reflexivity. contradiction.
+Qed.
+
+Theorem T13a_remove_values : forall f t t' n r,
+  well_formed t -> remove_tab f t = Some (t', n) -> In r (rows t) ->
+  exists v, f (cols t) (snd r) = Some v /\ (In r (rows t') <-> fst v = 0).
+Proof. exact remove_exact_values. Qed.
+Print Assumptions T13a_remove_values.
+
+(* remove fails only on an empty table, a clash with the temporary name, or a formula that raises *)
+Theorem T13a_remove_defined : forall f t,
+  rows t <> [] -> ~ In bioRemove (cols t) -> (forall r, In r (rows t) -> f (cols t) (snd r) <> None) ->
+  exists t' n, remove_tab f t = Some (t', n).
+Proof. exact remove_defined. Qed.
+Print Assumptions T13a_remove_defined.
+
+(* ... after ANY history (gaps left by earlier removals, duplicate labels created by extract_rows
+   with repeated positions, panel declaration, ...); on panel data the survivors are re-sorted by
+   individual, every individual keeping its observations in order *)
+Theorem T13a_remove_exact_over_histories : forall ops d0 f d',
+  inv d0 -> step (run d0 ops) (ORemove f) = (d', Done) ->
+  let d := run d0 ops in
+  let kept := filter (keeps f (cols (tab d))) (rows (tab d)) in
+  excluded d' = Z.of_nat (length (filter (fun r => negb (keeps f (cols (tab d)) r)) (rows (tab d)))) /\
+  cols (tab d') = cols (tab d) /\
+  Permutation (map snd (rows (tab d'))) (map snd kept) /\
+  (pcol d = None -> rows (tab d') = kept) /\
+  (forall c v, pcol d = Some c ->
+      map snd (filter (has_id (cols (tab d)) c v) (rows (tab d'))) = map snd (filter (has_id (cols (tab d)) c v) kept)).
+Proof. exact remove_exact_over_histories. Qed.
+Print Assumptions T13a_remove_exact_over_histories.
+
+Example T13a_history_example :
+  inv (new_db ex_t) /\
+  exists d', step (run (new_db ex_t) [OExtract [4; 0; 0; 2]; OAdd ex_f 9]) (ORemove (feval (FCol 9))) = (d', Done).
+Proof.
+  split; [|eexists; vm_compute; reflexivity]. apply new_db_inv. exact (proj1 T13a_example).
+Qed.
+
+(* the code before fix 589b5da (drop by label) did violate the statement *)
+Theorem T13a_label_based_remove_refuted :
+  exists f t t' n r,
+    well_formed t /\ remove_tab_by_label f t = Some (t', n) /\
+    In r (rows t) /\ f (cols t) (snd r) = Some dzero /\ ~ In r (rows t').
+Proof. exact remove_by_label_refuted. Qed.
+Print Assumptions T13a_label_based_remove_refuted.
+
+(* on panel data remove rebuilds the map of individuals from the remaining rows (fix 5b62ce6) *)
+Theorem T13a_remove_rebuilds_map : forall d f d',
+  inv d -> step d (ORemove f) = (d', Done) ->
+  let kept := filter (keeps f (cols (tab d))) (rows (tab d)) in
+  excluded d' = Z.of_nat (length (filter (fun r => negb (keeps f (cols (tab d)) r)) (rows (tab d)))) /\
+  pcol d' = pcol d /\
+  match pcol d with
+  | None => tab d' = mkT (cols (tab d)) kept /\ imap d' = None
+  | Some c => tab d' = sort_tab c (mkT (cols (tab d)) kept) /\
+              imap d' = build_imap c (tab d') /\ exists m, imap d' = Some m
+  end.
+Proof. exact step_remove_spec. Qed.
+Print Assumptions T13a_remove_rebuilds_map.
+
+(* ------------------------------------------- T13b add_column / define_variable *)
+Theorem T13b_add_column_pointwise : forall f c t t',
+  well_formed t -> add_col f c t = Some t' ->
+  cols t' = cols t ++ [c] /\ labels t' = labels t /\
+  forall i r, nth_error (rows t) i = Some r ->
+    exists r', nth_error (rows t') i = Some r' /\ fst r' = fst r /\
+               getc (cols t') c (snd r') = f (cols t) (snd r) /\
+               forall c', In c' (cols t) -> getc (cols t') c' (snd r') = getc (cols t) c' (snd r).
+Proof. exact add_column_pointwise. Qed.
+Print Assumptions T13b_add_column_pointwise.
+
+Theorem T13b_add_column_defined : forall f c t,
+  rows t <> [] -> ~ In c (cols t) -> (forall r, In r (rows t) -> f (cols t) (snd r) <> None) ->
+  exists t', add_col f c t = Some t'.
+Proof. exact add_col_defined. Qed.
+Print Assumptions T13b_add_column_defined.
+
+Example T13b_example :
+  add_col ex_f 9 ex_t =
+    Some (mkT [1; 6; 9] [(7, [(1, 0); (5, 0); (0, 0)]); (3, [(1, 1); (5, 0); (0, 0)]); (7, [(3, 0); (1, 1); (1, 0)]);
+                         (10, [(1, 2); (1, 1); (0, 0)]); (4, [(5, 0); (9, 0); (0, 0)])]).
+Proof. vm_compute. reflexivity. Qed.
+
+(* ------------------------------------------------------------ T13c scale_column *)
+Theorem T13c_scale_one_column : forall c s t t',
+  well_formed t -> scale_tab c s t = Some t' ->
+  In c (cols t) /\ cols t' = cols t /\ labels t' = labels t /\ well_formed t' /\
+  forall i r, nth_error (rows t) i = Some r ->
+    exists r', nth_error (rows t') i = Some r' /\ fst r' = fst r /\
+               getc (cols t) c (snd r') = option_map (fun x => dmul x s) (getc (cols t) c (snd r)) /\
+               forall c', c' <> c -> getc (cols t) c' (snd r') = getc (cols t) c' (snd r).
+Proof. exact scale_one_column. Qed.
+Print Assumptions T13c_scale_one_column.
+
+Example T13c_example :
+  scale_tab 1 (1, -1) ex_t =
+    Some (mkT [1; 6] [(7, [(1, -1); (5, 0)]); (3, [(1, 0); (5, 0)]); (7, [(3, -1); (1, 1)]); (10, [(1, 1); (1, 1)]); (4, [(5, -1); (9, 0)])]).
+Proof. vm_compute. reflexivity. Qed.
+
+(* -------------------------------------------------------------------- T13d split *)
+(* for every number of folds, every outcome of the shuffle: the validation parts together
+   contain every row exactly once, every estimation part is the complement of its validation
+   part, and (grouping column or panel data) no group is separated *)
+Theorem T13d_split_is_partition : forall k groups o d fs,
+  split_db k groups o d = Ok fs ->
+  2 <= k /\
+  split_spec (tab d) (match pcol d with Some p => Some p | None => groups end) (Z.to_nat k) fs.
+Proof. exact split_db_spec. Qed.
+Print Assumptions T13d_split_is_partition.
+
+Theorem T13d_split_plain_defined : forall k perm t,
+  2 <= k -> is_perm_idx perm (length (rows t)) = true -> exists fs, split_plain k perm t = Ok fs.
+Proof. exact split_plain_defined. Qed.
+Print Assumptions T13d_split_plain_defined.
+
+Theorem T13d_validation_parts_disjoint : forall t g k fs i j l,
+  split_spec t g k fs -> labels_unique t ->
+  (i < length fs)%nat -> (j < length fs)%nat ->
+  In l (map fst (snd (nth i fs ([], [])))) -> In l (map fst (snd (nth j fs ([], [])))) -> i = j.
+Proof. exact split_spec_disjoint_labels. Qed.
+Print Assumptions T13d_validation_parts_disjoint.
+
+Example T13d_example :
+  exists fs, split_db 3 None (SPerm [3; 1; 0; 4; 2]) (new_db ex_t) = Ok fs /\
+             split_db 2 (Some 6) (SIds [(9, 0); (5, 0); (1, 1)]) (new_db ex_t) <> Bad /\
+             split_db 2 (Some 6) (SIds [(9, 0); (5, 0); (1, 1)]) (new_db ex_t) <> Err.
+Proof. eexists. split; [vm_compute; reflexivity|]. split; vm_compute; discriminate. Qed.
+
+(* ---------------------------------------------------------------- T13e bootstrap *)
+Theorem T13e_bootstrap_rows_exist : forall size idx d s,
+  sample_db size idx d = Ok s -> incl s (rows (tab d)).
+Proof. exact sample_db_subset. Qed.
+Print Assumptions T13e_bootstrap_rows_exist.
+
+Theorem T13e_bootstrap_individuals_in_map : forall size idx d s,
+  sample_imap_db size idx d = Ok s -> exists m, imap d = Some m /\ incl s m.
+Proof. exact sample_imap_subset. Qed.
+Print Assumptions T13e_bootstrap_individuals_in_map.
+
+(* ... and the individuals of the map are exactly the individuals present in the table, along every
+   history that does not rescale the identifier column itself *)
+Theorem T13e_map_individuals_exist : forall d c m v,
+  pcol d = Some c -> map_fresh d -> imap d = Some m ->
+  (In v (map fst m) <-> exists r, In r (rows (tab d)) /\ getc (cols (tab d)) c (snd r) = Some v).
+Proof. exact map_fresh_individuals. Qed.
+Print Assumptions T13e_map_individuals_exist.
+
+Theorem T13e_map_follows_table_over_histories : forall ops d,
+  inv d -> map_fresh d -> no_id_scaling d ops -> map_fresh (run d ops).
+Proof. exact run_map_fresh. Qed.
+Print Assumptions T13e_map_follows_table_over_histories.
+
+Example T13e_example :
+  sample_db None [4; 0; 0; 2; 1] (new_db ex_t) =
+    Ok [(4, [(5, 0); (9, 0)]); (7, [(1, 0); (5, 0)]); (7, [(1, 0); (5, 0)]); (7, [(3, 0); (1, 1)]); (3, [(1, 1); (5, 0)])].
+Proof. vm_compute. reflexivity. Qed.
+
+(* ------------------------------------------------ T13f extract / count / flatten *)
+Theorem T13f_extract_rows : forall idx t t',
+  extract_tab idx t = Some t' ->
+  idx <> [] /\ (forall i, In i idx -> 0 <= i < nrows t) /\
+  cols t' = cols t /\ rows t' = map (iloc t) idx /\ incl (rows t') (rows t).
+Proof. exact extract_spec. Qed.
+Print Assumptions T13f_extract_rows.
+
+Theorem T13f_extract_after_remove : forall f idx t t1 n t2,
+  well_formed t -> remove_tab f t = Some (t1, n) -> extract_tab idx t1 = Some t2 ->
+  cols t2 = cols t /\
+  rows t2 = map (fun i => nth (Z.to_nat i) (filter (keeps f (cols t)) (rows t)) dummy_row) idx.
+Proof. exact extract_after_remove. Qed.
+Print Assumptions T13f_extract_after_remove.
+
+Theorem T13f_count : forall c v t n,
+  count_tab c v t = Some n ->
+  In c (cols t) /\
+  n = Z.of_nat (length (filter (fun r : lrow => ceqb v (getd (cols t) c (snd r))) (rows t))).
+Proof. exact count_spec. Qed.
+Print Assumptions T13f_count.
+
+Theorem T13f_count_after_remove : forall f c v t t1 n m,
+  well_formed t -> remove_tab f t = Some (t1, n) -> count_tab c v t1 = Some m ->
+  m = Z.of_nat (length (filter (fun r : lrow => keeps f (cols t) r && ceqb v (getd (cols t) c (snd r))) (rows t))).
+Proof. exact count_after_remove. Qed.
+Print Assumptions T13f_count_after_remove.
+
+Theorem T13f_flatten : forall g idn t out,
+  flatten_tab g idn t = Some out ->
+  exists varying ident,
+    incl varying (cols t) /\ incl ident (cols t) /\ ~ In g ident /\
+    (forall c, In c (cols t) -> c <> g -> In c varying \/ In c ident) /\
+    (forall c, In c ident -> ~ In c varying) /\
+    NoDup (map fst out) /\
+    (forall v, In v (map fst out) <-> exists r, In r (rows t) /\ getc (cols t) g (snd r) = Some v) /\
+    forall v common flat, In (v, (common, flat)) out ->
+      let G := filter (has_id (cols t) g v) (rows t) in
+      common = map (fun c => (c, hd dzero (colv (cols t) c G))) ident /\
+      (forall k c x, In ((k, c), x) flat <->
+                     In c varying /\ exists n r, nth_error G n = Some r /\ k = Z.of_nat n + 1 /\
+                                                 x = getd (cols t) c (snd r)) /\
+      (idn = None -> forall c r, In c ident -> In r G ->
+                     getd (cols t) c (snd r) = hd dzero (colv (cols t) c G)).
+Proof. exact flatten_spec. Qed.
+Print Assumptions T13f_flatten.
+
+Example T13f_example :
+  extract_tab [4; 0; 0] ex_t = Some (mkT [1; 6] [(4, [(5, 0); (9, 0)]); (7, [(1, 0); (5, 0)]); (7, [(1, 0); (5, 0)])]) /\
+  count_tab 6 (5, 0) ex_t = Some 2 /\
+  flatten_tab 6 None ex_t =
+    Some [((1, 1), ([], [((1, 1), (3, 0)); ((2, 1), (1, 2))]));
+          ((5, 0), ([], [((1, 1), (1, 0)); ((2, 1), (1, 1))]));
+          ((9, 0), ([], [((1, 1), (5, 0))]))].
+Proof. repeat split; vm_compute; reflexivity. Qed.
+
+(* ------------------------------------------ T13g invariants over every history *)
+Theorem T13g_invariant_over_histories : forall ops d, inv d -> inv (run d ops).
+Proof. exact run_inv. Qed.
+Print Assumptions T13g_invariant_over_histories.
+
+Theorem T13g_labels_unique_over_histories : forall ops d,
+  inv d -> labels_unique (tab d) -> (forall idx, In (OExtract idx) ops -> NoDup idx) ->
+  labels_unique (tab (run d ops)).
+Proof. exact run_labels_unique. Qed.
+Print Assumptions T13g_labels_unique_over_histories.
+
+(* a call that raises leaves the database exactly as it was *)
+Theorem T13g_raise_leaves_state : forall d o, inv d -> snd (step d o) = Raised -> fst (step d o) = d.
+Proof. exact step_raised_unchanged. Qed.
+Print Assumptions T13g_raise_leaves_state.
+
+Example T13g_example :
+  inv (new_db ex_t) /\ snd (step (new_db ex_t) (OAdd ex_f 1)) = Raised /\
+  ~ labels_unique ex_t /\ labels_unique (tab (run (new_db ex_t) [OPanel 6])).
+Proof.
+  split; [apply new_db_inv; exact (proj1 T13a_example)|]. split; [vm_compute; reflexivity|]. split.
+  - unfold labels_unique, labels. simpl. intros H. inversion H as [|? ? N _]. apply N. simpl. auto.
+  - vm_compute. repeat constructor; simpl; intuition discriminate.
+Qed.
+
+(* ---------------------------------------------------- T13h the proved checkers *)
+Theorem T13h_check_split_sound_and_complete : forall t g k fs,
+  check_split t g k fs = true <-> split_spec t g k fs.
+Proof. exact check_split_spec. Qed.
+Print Assumptions T13h_check_split_sound_and_complete.
+
+Theorem T13h_check_subset_sound_and_complete : forall s rs, check_subset s rs = true <-> incl s rs.
+Proof. exact check_subset_spec. Qed.
+Print Assumptions T13h_check_subset_sound_and_complete.
+
+(* ------------------------------------------------------- T13i panel declaration *)
+(* a refused declaration leaves the database untouched (fix 4b225bd); an accepted one sorts the
+   rows by individual, renumbers the index, builds the map *)
+Theorem T13i_panel_declaration : forall c d,
+  well_formed (tab d) ->
+  match panel_db c d with
+  | (d', Raised) => d' = d
+  | (d', Done) =>
+    In c (cols (tab d)) /\
+    exists m, d' = mkDB (sort_tab c (tab d)) (excluded d) (Some c) (Some m) /\
+              build_imap c (sort_tab c (tab d)) = Some m
+  end.
+Proof. exact panel_db_spec. Qed.
+Print Assumptions T13i_panel_declaration.
+
+(* the sort is a rearrangement of the rows, sorted by individual, and stable: the observations of
+   every individual keep their order (fix 5cb635b) *)
+Theorem T13i_panel_sort : forall c t,
+  cols (sort_tab c t) = cols t /\
+  labels (sort_tab c t) = iota (length (rows t)) /\
+  Permutation (map snd (rows (sort_tab c t))) (map snd (rows t)) /\
+  sorted_cells (map (fun r : lrow => getd (cols t) c (snd r)) (rows (sort_tab c t))) = true /\
+  forall v, map snd (filter (has_id (cols t) c v) (rows (sort_tab c t)))
+            = map snd (filter (has_id (cols t) c v) (rows t)).
+Proof. exact sort_tab_spec. Qed.
+Print Assumptions T13i_panel_sort.
+
+Example T13i_example :
+  panel_db 6 (new_db ex_t) =
+    (mkDB (mkT [1; 6] [(0, [(3, 0); (1, 1)]); (1, [(1, 2); (1, 1)]); (2, [(1, 0); (5, 0)]); (3, [(1, 1); (5, 0)]); (4, [(5, 0); (9, 0)])])
+          0 (Some 6) (Some [((1, 1), (0, 1)); ((5, 0), (2, 3)); ((9, 0), (4, 4))]), Done) /\
+  snd (panel_db 1 (new_db (mkT [1] [(0, [(5, 0)]); (1, [(1, 1)]); (2, [(5, 0)])]))) = Raised.
+Proof. split; vm_compute; reflexivity. Qed.
+
+(* the ranges of the map: in the table produced by panel() (or by remove() on panel data) the
+   range [lo, hi] recorded for an individual holds exactly the rows of that individual.
+   (cells of the identifier column in canonical form, as every IEEE double is) *)
+Theorem T13i_map_ranges : forall c t m v lo hi,
+  well_formed t -> In c (cols t) -> canonical_col c t ->
+  build_imap c (sort_tab c t) = Some m -> In (v, (lo, hi)) m ->
+  let t' := sort_tab c t in
+  0 <= lo <= hi /\ hi < nrows t' /\
+  forall p, 0 <= p < nrows t' -> (lo <= p <= hi <-> getc (cols t') c (snd (iloc t' p)) = Some v).
+Proof. exact panel_ranges. Qed.
+Print Assumptions T13i_map_ranges.
+
+Example T13i_ranges_example :
+  well_formed ex_t /\ In 6 (cols ex_t) /\ canonical_col 6 ex_t /\
+  build_imap 6 (sort_tab 6 ex_t) = Some [((1, 1), (0, 1)); ((5, 0), (2, 3)); ((9, 0), (4, 4))].
+Proof.
+  split; [exact (proj1 T13a_example)|]. split; [simpl; auto|]. split; [|vm_compute; reflexivity].
+  intros r Hr. simpl in Hr. repeat destruct Hr as [<-|Hr]; try reflexivity. contradiction.
+Qed.
